@@ -53,7 +53,8 @@ def ref_tables(g, lr):
             else: rc.append(0); ra.append(0)
         code.append(rc); arg.append(ra)
     ns = len(lr.states)
-    o = ['#define NS %d' % ns, '#define NWORDS %d' % nw, '#define NTERMS %d' % tc]
+    o = ['#define NS %d' % ns, '#define NLIVE %d' % len(lr.live), '#define NWORDS %d' % nw, '#define NTERMS %d' % tc]
+    o.append('static const uint8_t RLIVE[%d] = {%s};' % (ns, ','.join('1' if i in lr.live else '0' for i in range(ns))))
     o.append('static const uint32_t RBITS[%d][%d] = {%s};' % (ns, 2 * nw, ','.join('{%s}' % ','.join('%uu' % x for w in ws for x in (w & 0xffffffff, w >> 32)) for ws in rows)))
     o.append('static const uint8_t RCODE[%d][%d] = {%s};' % (ns, tc, ','.join('{%s}' % ','.join(map(str, r)) for r in code)))
     o.append('static const uint16_t RARG[%d][%d] = {%s};' % (ns, tc, ','.join('{%s}' % ','.join(map(str, r)) for r in arg)))
@@ -80,12 +81,12 @@ static int find_ref_state(const uint32_t* bits) {   /* the reference state with 
         k = kernel.Kernel(wd, 'diag_' + g.name, cpp_for(g),
             protos=[('void', 'k_diag', ['uint32_t', 'uint32_t', 'uint32_t*']), ('void', 'k_bits', ['uint32_t', 'uint32_t*'])],
             inputs=[('S', 'uint32_t', 1), ('T', 'uint32_t', 1)], outputs=[('OUT', 'uint32_t', 8 + 2 * nw), ('TB', 'uint32_t', 2 * nw)],
-            assume='S < %d && T < NTERMS' % ns, ref_c=ref, defines=['NWORDS=%d' % nw],
+            assume='S < %d && T < NTERMS' % len(lr.live), ref_c=ref, defines=['NWORDS=%d' % nw],
             call_c='  K(k_diag)(S, T, OUT);\n  if (OUT[0] == 1 && OUT[1] < OUT[3]) K(k_bits)(OUT[1], TB);',
             oracle_c='''  CHECK(exc_pending == 0, "write_diag_str must not throw");
-  CHECK(OUT[3] == NS, "the table has exactly the canonical LR(1) states of the grammar");
+  CHECK(OUT[3] == NLIVE, "the table has exactly the canonical LR(1) states the parser can reach after conflict resolution");
   int rs = find_ref_state(OUT + 8);
-  CHECK(rs >= 0, "every state's printed item set is an LR(1) item set of the grammar");
+  CHECK(rs >= 0 && RLIVE[rs], "every state's printed item set is a reachable LR(1) item set of the grammar");
   if (rs >= 0) {
     unsigned code = RCODE[rs][T], arg = RARG[rs][T];
     CHECK(OUT[2] <= 1, "at most one action line per state and term");
